@@ -1132,6 +1132,8 @@ class Interp:
         for op, rn in zip(node.ops, node.comparators):
             right = self.ev(rn, frame)
             r = self.compare(op, left, right, node)
+            if isinstance(r, Value) and len(node.ops) == 1:
+                return r                        # a domain-level predicate value (elementwise comparison)
             if r is None:
                 unknown = True
             elif not r:
